@@ -103,8 +103,10 @@ def make_case(rules, docs):
 
 
 def generate(rng, n, tier):
+    from props import corners
+    _corner = corners.parse_schema_cases(rng)
     g = Gen(rng, pct_strings=False, max_depth=3)
-    cases = []
+    cases = list(_corner)
     # casts outside the library's table of declared casts: `to_json_like` looks the function up without its
     # from-type (K only: such a rule is not in the fragment the property is about)
     from valida.casting import cast_string_to_bool
